@@ -454,6 +454,16 @@ func init() {
 			c.R.Mismatch("c04.generator_not_conformant", hin, why, "")
 			return
 		}
+		if resp == "1" {
+			// the model agrees with the reference on this conformant history; if the implementation's state dumps
+			// differ from the model's, the implementation differs from the reference: a concrete failing history
+			for _, dd := range cmp.Diffs {
+				if strings.HasPrefix(dd, "dump ") {
+					c.R.Violation("c04.reference_impl", hin, "the real client's tracked state differs from the reference model after this conformant history: "+dd, "", "after a conformant history the state API shows something other than what the client was told")
+					return
+				}
+			}
+		}
 		if resp != "1" {
 			// the implementation agrees with its model (checked above); the model disagrees with the reference tracker
 			if len(cmp.Diffs) == 0 {
